@@ -193,7 +193,7 @@ def search_order(ctx):
     ctx.check(ordered, "directories-order", db.where(a[0]), "configured directory order is not preserved: %s" % src(v), "list comprehension over the given order")
 
 
-@rule("C14.lru", min_instances=7)
+@rule("C14.lru", min_instances=7, props=["C16"])
 def lru(ctx):
     """every LRUCache insertion runs the size manager; bound capacity*(1+threshold<=0.5); eviction removes the least recently stamped; reads stamp recency and return the stored value"""
     db = ctx.db
